@@ -136,6 +136,22 @@ CHECKS.update({
     ),
 })
 
+CHECKS.update({
+    "C08": (
+        "exploration",
+        "runtime monitor: real estimators (hook) on synthetic windows; exactness on Gaussians, hostile windows with scale read-back, end-to-end whitening",
+        "The real DiagAdaptStrategy and LowRankMassMatrixStrategy are fed through their collector with synthetic windows and the resulting "
+        "transformation is read back: (1) diagonal Gaussians, any placement of 3..42 points: stds = sigma and mean = mu to rounding, inverse "
+        "scales and log-determinant consistent; (2) dense Gaussians with more points than dimensions: whitened gradient = -whitened position "
+        "at fresh points; (3) 10 x 10 classes of hostile windows (constant, zero, 1e+-300, NaN, inf, identical rows, wild magnitudes in draws "
+        "and/or gradients) after a sane window: every std / inverse std / sqrt eigenvalue finite and > 0, log-determinant finite, non-finite "
+        "input keeps the previous value, no panic, no hang (60 s on a helper thread); (4) adapted chains with store_transformed: "
+        "|y + grad_y| / |y| small after 150 warmup draws, scales positive finite at every draw, fisher_distance statistic consistent.",
+        "Low-rank exactness uses eigval_cutoff = 1, gamma = 1e-12 (default cutoff deliberately drops eigenvalues in [1/2,2]). Tolerances scale with the condition number.",
+        "DESIGN.md §3 C08",
+    ),
+})
+
 NOT_YET = {}
 
 
